@@ -91,12 +91,15 @@ def refill (src : Source) (s : SB) : SB × Option Err :=
       else ({ s' with err := some e }, if r.data.length > 0 then none else some e)
 
 /-- `PeekN(n)`: window of the next `n` bytes (fewer at the end of the input, then together with
-    whatever `refill` reported) -/
+    whatever `refill` reported or has latched) -/
 def peekN (src : Source) (n : Nat) (s : SB) : SB × Bytes × Option Err :=
   if n > bufSize then ({ s with panicked := true }, [], none)
   else
     let (s1, err) := if s.pos + n > s.buf.length then refill src s else (s, none)
-    if s1.pos + n > s1.buf.length then (s1, s1.buf.drop s1.pos, err)
+    if s1.pos + n > s1.buf.length then
+      -- `if err == nil { err = s.err }` (fix D33): a window that is short because of a read error
+      -- which `refill` has only latched is reported with that error, not as the end of the input
+      (s1, s1.buf.drop s1.pos, match err with | none => s1.err | some e => some e)
     else (s1, (s1.buf.drop s1.pos).take n, none)
 
 /-- `ReadByte` -/
